@@ -27,6 +27,7 @@ def run_family(ck, pid, extra_shapes=()):
         ck.cov['paths'] += s['paths']; ck.cov['paths_cut'] += s['cut']; ck.cov['queries'] += s['queries']; ck.cov['solver_s'] += s['solver_s']
         ck.cov['ir_steps'] += s['steps']; ck.cov['obligations'] += s['obligations']; ck.cov['discharged'] += s['discharged']
         ck.cov['functions'] |= set(s['functions'])
+        if len(ck.final_queries) < (40 if ck.tier == 'thorough' else 4): ck.final_queries += res.get('smt', [])[:1]
         seen = set()
         for cat, what, vals in res['findings']:
             if cat not in cats: continue
